@@ -92,13 +92,19 @@ example :
       (Bytes.ofNatBE 32 0x8a1563030e9ff27e3772547fa7c0382998384b35a42ed52049e98961907bd9cf) = true := by
   decide +kernel
 
+/-- rejected: r + s = n; a public key with x ≥ p (non-canonical); a 31-byte r -/
 example :
     Spec.SM2.verify
       (Bytes.ofNatBE 32 0x4467e6043f38645e740050f3d6c9d6a0bf6b13d3b57892842be9b75cca3ce884)
       (Bytes.ofNatBE 32 0xf0b5c27a16795142fa467fe6818cdb393c95f8e17d28f7e0a6557bbea8d65034)
-      (List.replicate 32 0x33)
-      (Bytes.ofNatBE 32 0xb859452a77e23789bd102f27f376aa64060611665deb242f35a9cf92debdbc76)
-      (Bytes.ofNatBE 32 0x8a1563030e9ff27e3772547fa7c0382998384b35a42ed52049e98961907bd9d0) = false := by
+      (List.replicate 32 0x33) (Bytes.ofNatBE 32 1) (Bytes.ofNatBE 32 (Spec.SM2.n - 1)) = false ∧
+    Spec.SM2.verify (Bytes.ofNatBE 32 Spec.SM2.p)
+      (Bytes.ofNatBE 32 0xf0b5c27a16795142fa467fe6818cdb393c95f8e17d28f7e0a6557bbea8d65034)
+      (List.replicate 32 0x33) (Bytes.ofNatBE 32 1) (Bytes.ofNatBE 32 1) = false ∧
+    Spec.SM2.verify
+      (Bytes.ofNatBE 32 0x4467e6043f38645e740050f3d6c9d6a0bf6b13d3b57892842be9b75cca3ce884)
+      (Bytes.ofNatBE 32 0xf0b5c27a16795142fa467fe6818cdb393c95f8e17d28f7e0a6557bbea8d65034)
+      (List.replicate 32 0x33) (Bytes.ofNatBE 31 1) (Bytes.ofNatBE 32 1) = false := by
   decide +kernel
 
 end SMGo.Props.C03
